@@ -78,7 +78,15 @@ pub fn cell_header(cell: &Value) -> HdrC {
         ch: cell["ch"].as_u64().unwrap() as u8,
         rsv: 0,
         sl: [sl[0] as u8, sl[1] as u8, sl[2] as u8],
-        inf: (0..cd.len()).map(|j| small_inf(j as u32 + 1, cd[j], 1000 * (j as u32 + 1), &[])).collect(),
+        inf: (0..cd.len())
+            .map(|j| {
+                let mut i = small_inf(j as u32 + 1, cd[j], 1000 * (j as u32 + 1), &[]);
+                if cell["pf"].as_bool().unwrap_or(false) {
+                    i.flags |= FLAG_PEER;
+                }
+                i
+            })
+            .collect(),
         hop: (0..tot as usize).map(|k| small_hop(k as u32 + 1, 10 + k as u8 + 1, al, al)).collect(),
     }
 }
@@ -175,6 +183,16 @@ pub fn replay_cell(cell: &Value) -> Value {
 pub struct Piece {
     pub n: usize,
     pub cd: bool,
+    /// peering segment: its junction-side hop field is a peer hop field (construction position 1)
+    pub peer: bool,
+}
+pub fn pieces_of(v: &Value) -> Vec<Piece> {
+    v.as_array()
+        .map(|a| a.iter().map(|p| Piece { n: p["n"].as_u64().unwrap_or(0) as usize, cd: p["cd"].as_bool().unwrap_or(false), peer: p["peer"].as_bool().unwrap_or(false) }).collect())
+        .unwrap_or_default()
+}
+pub fn is_peering(pieces: &[Piece]) -> bool {
+    pieces.len() == 2 && pieces[0].peer
 }
 pub struct Journey {
     pub hdr: HdrC,
@@ -190,13 +208,15 @@ pub fn build_authentic(pieces: &[Piece], salt: u64, rng: &mut Rng, spec_labels: 
     let total: usize = pieces.iter().map(|p| p.n).sum();
     let mut as_of_hop = Vec::with_capacity(total);
     let mut off = 0usize;
+    // on a peering path the two peer hop fields belong to different ASes: no shared crossover AS
+    let peering = is_peering(pieces);
     for (k, p) in pieces.iter().enumerate() {
         for t in 1..=p.n {
-            as_of_hop.push(off - k + t);
+            as_of_hop.push(off - if peering { 0 } else { k } + t);
         }
         off += p.n;
     }
-    let nas = total - (pieces.len() - 1);
+    let nas = total - if peering { 0 } else { pieces.len() - 1 };
     let mut inf = Vec::new();
     let mut hop: Vec<HopC> = Vec::new();
     let mut g0 = 0usize;
@@ -207,6 +227,7 @@ pub fn build_authentic(pieces: &[Piece], salt: u64, rng: &mut Rng, spec_labels: 
         let mut beta = segid0;
         let mut betas = Vec::new();
         let mut entries: Vec<HopC> = Vec::new();
+        let peer_if: u16 = if spec_labels { 900 + k as u16 + 1 } else { rng.range(1, 65535) as u16 };
         for c in 1..=p.n {
             let t = if p.cd { c } else { p.n + 1 - c };
             let a = as_of_hop[g0 + t - 1];
@@ -215,13 +236,29 @@ pub fn build_authentic(pieces: &[Piece], salt: u64, rng: &mut Rng, spec_labels: 
             } else {
                 (if c == 1 { 0 } else { rng.range(1, 65535) as u16 }, if c == p.n { 0 } else { rng.range(1, 65535) as u16 }, rng.below(256) as u8)
             };
+            // the regular hop MAC always feeds the chain; a peer entry (construction position 1 of a
+            // peering segment) is MACed under the accumulator AFTER the AS's regular hop field
             let mac = hop_mac(&as_key(a, salt), beta, ts, exp, cin, ceg);
             betas.push(beta);
-            entries.push(HopC { flags: 0, exp, cin, ceg, mac });
-            beta ^= u16::from_be_bytes([mac[0], mac[1]]);
+            let next_beta = beta ^ u16::from_be_bytes([mac[0], mac[1]]);
+            if p.peer && c == 1 {
+                let pexp = if spec_labels { 61 } else { exp };
+                let pmac = hop_mac(&as_key(a, salt), next_beta, ts, pexp, peer_if, ceg);
+                entries.push(HopC { flags: 0, exp: pexp, cin: peer_if, ceg, mac: pmac });
+            } else {
+                entries.push(HopC { flags: 0, exp, cin, ceg, mac });
+            }
+            beta = next_beta;
         }
-        let segid = if p.cd { betas[0] } else { betas[p.n - 1] };
-        inf.push(InfC { flags: if p.cd { FLAG_CONS_DIR } else { 0 }, rsv: 0, segid, ts });
+        betas.push(beta);
+        let segid = if p.peer {
+            if p.cd || p.n == 1 { betas[1] } else { betas[p.n - 1] }
+        } else if p.cd {
+            betas[0]
+        } else {
+            betas[p.n - 1]
+        };
+        inf.push(InfC { flags: (if p.cd { FLAG_CONS_DIR } else { 0 }) | (if p.peer { FLAG_PEER } else { 0 }), rsv: 0, segid, ts });
         if p.cd {
             hop.extend(entries);
         } else {
@@ -267,11 +304,16 @@ pub fn walk(buf: &mut Vec<u8>, order: &[usize], salt: u64) -> WalkResult {
             let (v, _) = StandardPathView::try_from_mut_slice(buf).unwrap();
             match v.advance_ingress_with_validator(HopMacValidator { key }, i == 0) {
                 Err(_) => ("err".to_string(), "none".to_string()),
-                Ok(IngressValidateResult::Ok(o)) => ("ok".to_string(), match o.action {
-                    IngressAdvanceAction::ForwardLocal => "local".to_string(),
-                    IngressAdvanceAction::ContinueEgress { .. } => "egress".to_string(),
-                }),
-                Ok(IngressValidateResult::ValidationFailed(..)) => ("vfail".to_string(), "none".to_string()),
+                Ok(res) => {
+                    let (k, o) = match res {
+                        IngressValidateResult::Ok(o) => ("ok", o),
+                        IngressValidateResult::ValidationFailed(o, _) => ("vfail", o),
+                    };
+                    (k.to_string(), match o.action {
+                        IngressAdvanceAction::ForwardLocal => "local".to_string(),
+                        IngressAdvanceAction::ContinueEgress { .. } => "egress".to_string(),
+                    })
+                }
             }
         });
         let opn = if i == 0 { "ing_int" } else { "ing_ext" };
@@ -344,7 +386,8 @@ fn steps_json(s: &[WalkStep]) -> Vec<Value> {
 }
 
 fn cd_class(pieces: &[Piece]) -> String {
-    pieces.iter().map(|p| if p.cd { 'c' } else { 'r' }).collect()
+    let s: String = pieces.iter().map(|p| if p.cd { 'c' } else { 'r' }).collect();
+    if is_peering(pieces) { format!("peering-{s}") } else { s }
 }
 
 /// bit positions (byte offset in the raw header, bit) of an authenticated field
@@ -371,7 +414,7 @@ pub fn field_bits(h: &HdrC, f: &str, at: usize) -> Vec<(usize, u8)> {
 }
 
 pub fn replay_walk(case: &Value) -> Value {
-    let pieces: Vec<Piece> = case["pieces"].as_array().unwrap().iter().map(|p| Piece { n: p["n"].as_u64().unwrap() as usize, cd: p["cd"].as_bool().unwrap() }).collect();
+    let pieces: Vec<Piece> = pieces_of(&case["pieces"]);
     let tf = case["tamper"]["f"].as_str().unwrap_or("none").to_string();
     let at = case["tamper"]["at"].as_u64().unwrap_or(0) as usize;
     let owner = case["owner"].as_u64().unwrap_or(0) as usize;
@@ -390,7 +433,10 @@ pub fn replay_walk(case: &Value) -> Value {
         let w1 = walk(&mut buf, &fwd, salt);
         pvs.extend(w1.pv.iter().cloned());
         let mut real = steps_json(&w1.steps);
-        if w1.outcome != "delivered" {
+        if w1.outcome != "delivered" && is_peering(&pieces) {
+            // narrowly keyed: the advance API has no peering support (PEERING flag ignored)
+            pvs.push(pv("AuthenticRejected:peering:advance-ignores-PEERING-flag", format!("authentic PEERING path (pieces {:?}) was rejected at AS {} going forward ({}): advance_ingress/advance_egress ignore the PEERING flag (peer hop field MACed under beta_i+1, no SegID update, segment change at egress)", pieces, w1.failed_at, w1.outcome)));
+        } else if w1.outcome != "delivered" {
             pvs.push(pv(format!("AuthenticRejected:forward:{cls}"), format!("authentic path (pieces {:?}) was rejected at AS {} going forward ({})", pieces, w1.failed_at, w1.outcome)));
         } else {
             let rv = catch(|| StandardPathView::try_from_mut_slice(&mut buf).unwrap().0.try_reverse().is_ok());
@@ -437,7 +483,7 @@ pub fn replay_walk(case: &Value) -> Value {
 /// Every PAIR of authenticated bits of one small authentic path flipped together
 /// (C11: "all single- and double-bit corruptions").  P: detected no later than at the later owner.
 pub fn replay_double(case: &Value) -> Value {
-    let pieces: Vec<Piece> = case["pieces"].as_array().unwrap().iter().map(|p| Piece { n: p["n"].as_u64().unwrap() as usize, cd: p["cd"].as_bool().unwrap() }).collect();
+    let pieces: Vec<Piece> = pieces_of(&case["pieces"]);
     let mut rng = Rng::new(vh_core::seed_from_env() ^ 0x99);
     let salt = 2;
     let j = build_authentic(&pieces, salt, &mut rng, true, 1_700_000_000);
